@@ -124,6 +124,14 @@ def r1_guarded_sort(w):
                         r.ok(cons, 'key closure captures nothing: order depends on the items only')
                     else:
                         r.bad(cons, '%s|key-captures' % b.short, 'the sort key closure captures state', b.loc(t['span']))
+    # "imports that contain comments keep their order": the comment-free condition covers every child of the import statement
+    seen_keys = set()
+    for ok, cons, key, why, loc in comment_coverage_obligations(w):
+        if ok:
+            r.ok(cons, why)
+        elif key not in seen_keys:
+            seen_keys.add(key)
+            r.bad(cons, key, why, loc)
     # the duplicate test itself, instance per obligation
     for (b, bi, t, p, m) in sites:
         v = BodyView(w, b)
@@ -492,3 +500,169 @@ r1_guarded_sort.needs = ('core',)
 r2_permutation.needs = ('core',)
 r3_nothing_else_depends_on_flag.needs = ('core',)
 MATRIX_RULES = RULES
+
+
+# ---------------------------------------------------------------------------------------------
+# R1 (coverage): "imports that contain comments keep their order" - the comment-free condition has to look at every child of the import
+# statement, not only at the item list
+# ---------------------------------------------------------------------------------------------
+def comment_coverage_obligations(w):
+    out = []
+    sites = _sort_site(w)
+    kinds = syntax_kind_names(w)
+    for (b, bi, t, p, m) in sites:
+        bv = BodyView(w, b)
+        coll = bv.pv.through(bv.pv.origins_operand(t['args'][0]), re.compile(r'DerefMut>::deref_mut$|DerefMut::deref_mut$|::as_mut_slice$|Deref>::deref$'))
+        coll_params = {o[1] for o in coll if o[0] == 'param'}
+        if not coll_params:
+            out.append((False, {'fn': b.short}, '%s|coverage|collection' % b.short, 'the sorted list is not a parameter of %s: cannot relate it to the children of the import' % b.short, b.loc()))
+            continue
+        # bool parameters of b that guard the sort on their true edge
+        guard_params = set()
+        for atom, vals, sw in bv.guards(bi):
+            d = b.blocks[sw]['term']['discr']
+            if d.get('o') in ('copy', 'move') and vals == {True}:
+                for o in bv.pv.peel(bv.pv.origins_operand(d)):
+                    if o[0] == 'param' and b.locals[o[1]]['ty']['s'] == 'bool':
+                        guard_params.add(o[1])
+        callers = [(cb, cbi, ct) for cb in w.fn_bodies(w.core) for cbi, ct in cb.calls() if resolved_id(ct) == b.id]
+        if not callers:
+            out.append((False, {'fn': b.short}, '%s|coverage|callers' % b.short, 'no caller of %s found' % b.short, b.loc()))
+        for (cb, cbi, ct) in callers:
+            cv = BodyView(w, cb)
+            # the children slice of the import node and the sub-slices cut out of it
+            slices = {}
+            for sbi, st in cb.calls():
+                sp = callee_str(st) or ''
+                if re.search(r'Index<.*Range.*>>::index$', sp) and 'SyntaxNode' in sp:
+                    src = cv.pv.through(cv.pv.origins_operand(st['args'][0]), re.compile(r'::as_slice$|Deref>::deref$'))
+                    if any(o[0] == 'call' and (callee_path(cv.pv.call_term(o)) or '').endswith('SyntaxNode::children') for o in src):
+                        slices[sbi] = st
+            cons0 = {'caller': last_(cb.short), 'slices_of_children': len(slices)}
+            if not slices:
+                out.append((False, cons0, '%s|coverage|slices' % cb.short, 'the way %s splits the children of the import was not recognised' % cb.short, cb.loc()))
+                continue
+            for sbi, st in sorted(slices.items()):
+                rng = cv.describe_operand(st['args'][1], 2)
+                cons = {'caller': last_(cb.short), 'slice': rng[:80]}
+                key = '%s|coverage|%s' % (last_(cb.short), re.sub(r'\d+', 'N', rng)[:60])
+                dest = st['dest']['l']
+                how = None
+                # (a) its nodes go into the list that is handed to the sorting function (which scans that list)
+                for i in coll_params:
+                    arg = ct['args'][i - 1]
+                    vec_locals = set()
+                    for o in set(cv.pv.origins_operand(arg)) | set(cv.pv.peel(cv.pv.origins_operand(arg))):
+                        if o[0] == 'ref':
+                            vec_locals.add(o[1][0])
+                    if arg['o'] in ('move', 'copy') and not arg['p']['proj']:
+                        vec_locals.add(arg['p']['l'])
+                    for _ in range(4):      # the list may be moved through temporaries before the call
+                        for l in list(vec_locals):
+                            for (proj, kind, dbi, dsi, payload) in cv.pv.defs.get(l, []):
+                                if kind == 'rv' and payload['r'] == 'use' and payload['op'].get('o') in ('move', 'copy') and not payload['op']['p']['proj']:
+                                    vec_locals.add(payload['op']['p']['l'])
+                    for pbi, pt in cb.calls():
+                        pp = callee_path(pt) or ''
+                        if not re.search(r'Vec::<.*>::(push|extend)$|Extend<.*>>::extend$|Vec<.*>::extend$', (callee_str(pt) or '') + '|' + pp) and not pp.endswith(('::push', '::extend')):
+                            continue
+                        tgt = set()
+                        for o in set(cv.pv.origins_operand(pt['args'][0])):
+                            if o[0] == 'ref':
+                                tgt.add(o[1][0])
+                        if not (tgt & vec_locals):
+                            continue
+                        # is the pushed value an item of a loop over this slice?
+                        for h, blocks in cfg.natural_loops(cb).items():
+                            ht = cb.blocks[h]['term']
+                            if pbi in blocks and ht['t'] == 'call' and re.search(r'Iterator>?::next$', callee_path(ht) or ''):
+                                if sbi in _source_calls(cv, ht['args'][0]):
+                                    how = 'its nodes are collected into the list the sorting function scans for comments'
+                # (b) scanned on the spot, the verdict handed over as a guard of the sort
+                if how is None:
+                    for abi, at in cb.calls():
+                        ap = callee_path(at) or ''
+                        if not re.search(r'Iterator>?::any$', ap):
+                            continue
+                        if sbi not in _source_calls(cv, at['args'][0]):
+                            continue
+                        if not _pred_is_comment_test(w, cv, at):
+                            continue
+                        # Not(result) flows into a guarding bool parameter of the sorting function
+                        for gi in guard_params:
+                            for o in cv.pv.peel(cv.pv.origins_operand(ct['args'][gi - 1])):
+                                if o[0] == 'unop' and o[1][2] == 'Not':
+                                    rv = cb.blocks[o[1][0]]['stmts'][o[1][1]]['rv']
+                                    if any(x[0] == 'call' and x[1][0] == abi for x in cv.pv.peel(cv.pv.origins_operand(rv['a']))):
+                                        how = 'scanned with any(is comment); the negated result is a guard of the sort'
+                if how:
+                    out.append((True, cons, key, how, cb.loc(st['span'])))
+                else:
+                    out.append((False, cons, key,
+                                'the nodes of the slice %s of the children of the import statement (cut in %s) are not looked at by the comment-free condition of the sort: an import with a comment '
+                                'there (e.g. `import "m": /* c */ b, a`) is still reordered' % (rng[:60], last_(cb.short)), cb.loc(st['span'])))
+    return out
+
+
+ITER_LOOKTHROUGH = re.compile(r'::iter$|IntoIterator.*into_iter$|Deref>::deref$|::as_slice$|::by_ref$|Iterator>?::(skip|take|rev|peekable)$')
+
+
+def _source_calls(cv, operand):
+    """block indices of the calls that produced the collection an iterator / reference operand goes back to (looking through iter(), into_iter(),
+    deref, copies and borrows of locals)"""
+    b = cv.b
+    out, seen, work = set(), set(), [operand]
+    hops = 0
+    while work and hops < 40:
+        hops += 1
+        cur = work.pop()
+        for o in set(cv.pv.origins_operand(cur)) | set(cv.pv.peel(cv.pv.origins_operand(cur))):
+            if o in seen:
+                continue
+            seen.add(o)
+            if o[0] == 'ref':
+                for (proj, kind, dbi, dsi, payload) in cv.pv.defs.get(o[1][0], []):
+                    if kind == 'rv' and payload['r'] == 'use':
+                        work.append(payload['op'])
+                    elif kind == 'rv' and payload['r'] in ('ref', 'rawptr'):
+                        work.append({'o': 'copy', 'p': {'l': payload['p']['l'], 'proj': []}})
+                    elif kind == 'call':
+                        ct = b.blocks[dbi]['term']
+                        if ITER_LOOKTHROUGH.search(callee_path(ct) or '') and ct['args']:
+                            work.append(ct['args'][0])
+                        else:
+                            out.add(dbi)
+            elif o[0] == 'call':
+                ct = cv.pv.call_term(o)
+                if ITER_LOOKTHROUGH.search(callee_path(ct) or '') and ct['args']:
+                    work.append(ct['args'][0])
+                else:
+                    out.add(o[1][0])
+    return out
+
+
+def _pred_is_comment_test(w, v, at):
+    """the predicate of any(..) is a comment-kind test (fn item or closure calling one)"""
+    for a in at['args'][1:]:
+        if a.get('o') == 'const' and 'fn' in a:
+            fb = w.bodies.get(a['fn']['def']['id'])
+            if fb is not None and _tests_comment_kinds(w, fb):
+                return True
+        for o in v.pv.peel(v.pv.origins_operand(a)):
+            if o[0] == 'fnitem':
+                fb = w.bodies.get(o[1]) if isinstance(o[1], str) else None
+                if fb is not None and _tests_comment_kinds(w, fb):
+                    return True
+            if o[0] == 'agg' and v.pv.agg_rvalue(o).get('ak') == 'closure':
+                cb = w.bodies.get(v.pv.agg_rvalue(o)['def']['id'])
+                if cb is None:
+                    continue
+                for _, ct in cb.calls():
+                    fb = w.bodies.get(resolved_id(ct))
+                    if fb is not None and _tests_comment_kinds(w, fb) and ct['dest']['l'] == 0:
+                        return True
+    return False
+
+
+def last_(s):
+    return s.rsplit('::', 1)[-1]
